@@ -19,6 +19,10 @@ type c19Case struct {
 	Ops     []asmcat.Op `json:"ops"`
 	Cap     int         `json:"cap"`
 	Listing bool        `json:"listing"`
+	// ops[CloneFrom:CloneTo] reach the bounded emitter through a Clone (with its own ample buffer) that is appended
+	// back, provided everything up to CloneTo fits the capacity; the calls after it meet the capacity limit
+	CloneFrom int `json:"clone_from,omitempty"`
+	CloneTo   int `json:"clone_to,omitempty"`
 }
 
 func c19Check(c c19Case) error {
@@ -34,9 +38,35 @@ func c19Check(c c19Case) error {
 	if p.em.Cap() != c.Cap {
 		return fmt.Errorf("Cap() = %d for a %d-byte target", p.em.Cap(), c.Cap)
 	}
+	orig := p.em
+	useClone := c.CloneTo > c.CloneFrom && c.CloneTo <= len(c.Ops) && needOf(c.Ops[:c.CloneTo]) <= c.Cap
+	join := func() error {
+		var pan interface{}
+		func() {
+			defer func() { pan = recover() }()
+			orig.Append(p.em)
+		}()
+		if pan != nil {
+			return fmt.Errorf("Append of a clone whose bytes fit the remaining capacity failed: %v", pan)
+		}
+		p.em, p.lenBias = orig, 0
+		return nil
+	}
 	for i, o := range c.Ops {
+		if useClone && i == c.CloneFrom {
+			p.lenBias = orig.Len()
+			p.em = orig.Clone(make([]byte, needOf(c.Ops[c.CloneFrom:c.CloneTo])+4))
+		}
+		if useClone && i == c.CloneTo {
+			if err := join(); err != nil {
+				return err
+			}
+		}
 		if err := p.step(i, o); err != nil {
 			return err
+		}
+		if p.em != orig {
+			continue
 		}
 		if p.em.Len() > p.em.Cap() || p.em.Len() > c.Cap {
 			return fmt.Errorf("after op %d: Len() = %d exceeds the capacity %d (Cap() = %d)", i, p.em.Len(), c.Cap, p.em.Cap())
@@ -45,6 +75,11 @@ func c19Check(c c19Case) error {
 			if big[j] != 0xC3 || big[8+c.Cap+j] != 0xC3 {
 				return fmt.Errorf("after op %d %v: a byte outside the %d-byte target buffer was written (the target is a window into a larger array)", i, o, c.Cap)
 			}
+		}
+	}
+	if useClone && p.em != orig {
+		if err := join(); err != nil {
+			return err
 		}
 	}
 	if !bytes.Equal(p.em.Bytes(), p.m.Bytes) {
@@ -105,7 +140,7 @@ func init() {
 
 func TestC19(t *testing.T) {
 	rig.Main(t, "C19", "rapid: an emitter history (instructions incl. wrong-width immediates, data, labels, references, base, assumptions) x a capacity solved to end exactly at, or 1-3 bytes inside, "+
-		"a drawn instruction or data block (also 0 and the full size): every call must be accepted iff it fits, a refused call must leave bytes, length, PC and labels unchanged, Len <= Cap always; "+
+		"a drawn instruction or data block (also 0 and the full size): every call must be accepted iff it fits, a refused call must leave bytes, length, PC and labels unchanged, Len <= Cap always; in a third of the cases some of the calls before the capacity edge are emitted into a Clone and appended; "+
 		"the same history on an emitter without a target must report the same PC, label addresses and flags after every call as an emitter with a large buffer, with Len() == 0.  "+
 		"Non-trivial = at least one call was refused for capacity; distinct = hash(case).",
 		func(r *rig.Run) {
@@ -115,13 +150,14 @@ func TestC19(t *testing.T) {
 				c.Ops = asmcat.GenHistory(t, asmcat.GenOpts{MaxOps: rig.Pick(30, 80), Labels: true, Data: true, Comments: true, SetBase: true, Assume: true, BadGuard: true})
 				// capacity: solved against a drawn emitting op
 				m := asmcat.NewModel(1<<30, false, false)
-				var ends [][2]int // (offset before, need) of every accepted emitting op
-				for _, o := range c.Ops {
+				var ends [][3]int // (offset before, need, op index) of every accepted emitting op
+				for i, o := range c.Ops {
 					before := len(m.Bytes)
 					if ok, _ := m.Apply(o); ok && len(m.Bytes) > before {
-						ends = append(ends, [2]int{before, len(m.Bytes) - before})
+						ends = append(ends, [3]int{before, len(m.Bytes) - before, i})
 					}
 				}
+				capOp := len(c.Ops)
 				size := len(m.Bytes)
 				switch k := rapid.IntRange(0, 9).Draw(t, "cap-kind"); {
 				case k == 0:
@@ -136,8 +172,17 @@ func TestC19(t *testing.T) {
 						in = e[1] - 1
 					}
 					c.Cap = e[0] + in
+					capOp = e[2]
 				default:
 					c.Cap = rapid.IntRange(0, size).Draw(t, "cap")
+				}
+				if capOp >= 1 && rapid.IntRange(0, 2).Draw(t, "via-clone") == 0 {
+					// part of what precedes the capacity edge arrives through Clone + Append
+					c.CloneFrom = rapid.IntRange(0, capOp-1).Draw(t, "clone-from")
+					c.CloneTo = rapid.IntRange(c.CloneFrom+1, capOp).Draw(t, "clone-to")
+					if needOf(c.Ops[:c.CloneTo]) <= c.Cap {
+						ev.Class("bytes-before-the-capacity-edge-arrived-through-Clone+Append")
+					}
 				}
 				r.Check(t, "rapid", c, func() error { return c19Check(c) })
 				// classify with the bounded model
